@@ -485,6 +485,36 @@ Proof.
   constructor; assumption.
 Qed.
 
+Theorem run_history_AQ fuel h : forall w, Hinv w -> K w -> Q w ->
+  Hinv (snd (run_history RC OC P always fuel w h)) /\ Q (snd (run_history RC OC P always fuel w h)).
+Proof.
+  induction h as [|s tl IH]; intros w Hw Kw Hq; cbn [run_history]; [split; assumption|].
+  assert (X : Hinv (snd (run_step RC OC P always fuel w s)) /\ K (snd (run_step RC OC P always fuel w s)) /\ Q (snd (run_step RC OC P always fuel w s))).
+  { split; [|split].
+    - pose proof (run_history_V RC OC P always fuel [s] w Hw) as Y. cbn [run_history] in Y. destruct (run_step RC OC P always fuel w s) as [r w']. exact (proj2 Y).
+    - pose proof (run_history_Q RC OC P sf HS HNR always fuel [s] w Hw Kw) as Y. cbn [run_history] in Y. destruct (run_step RC OC P always fuel w s) as [r w']. exact Y.
+    - destruct s as [r v|e|ops]; cbn [run_step snd].
+      + apply (Q_same gen ord w); [destruct v; reflexivity|exact Hq].
+      + apply (Q_same gen ord w); [reflexivity|exact Hq].
+      + apply run_session_A; [apply VS_new_session; exact Hw|apply (geq_K RC OC P sf w); [apply geq_same; reflexivity|reflexivity|exact Kw]|apply (Q_same gen ord w); [reflexivity|exact Hq]]. }
+  destruct (run_step RC OC P always fuel w s) as [r w']. cbn [snd] in X. destruct X as [X2 [X3 X4]].
+  specialize (IH w' X2 X3 X4). destruct (run_history RC OC P always fuel w' tl) as [rs w'']. exact IH.
+Qed.
+
+(* C05, the "Hence" clause, in the static class, for EVERY history: in every reachable store every recorded reader of a resource
+   directly requires the task recorded as its writer (so it is a transitive dependency) *)
+Theorem static_class_readers_require_writer_any_history fuel h :
+  let w := snd (run_history RC OC P always fuel init_world h) in
+  forall rd g r dp dp', row w rd (rn r) = Some dp -> is_read (Some dp) = true -> row w g (rn r) = Some dp' -> is_write (Some dp') = true ->
+    In (tn g) (kidsT w rd) /\ contains_transitive_task_dependency w rd g = Some true.
+Proof.
+  intros w rd g r dp dp' R1 I1 R2 I2.
+  destruct (run_history_AQ fuel h init_world) as [Jw Qw]; [split; [apply L_init|intros x d X; discriminate]|apply K_init|apply Q_init|]. fold w in Jw, Qw.
+  pose proof (proj1 (proj2 (Qw g)) r dp' R2 I2) as G.
+  destruct (proj2 (proj2 (Qw rd)) r dp R1 I1) as [E|[g' [E I']]]; [congruence|]. rewrite G in E. inversion E; subst g'.
+  split; [exact (before_in _ _ _ I')|]. apply cte_edge; [apply Jw|exact (before_in _ _ _ I')].
+Qed.
+
 (* EVERY history in the static class (top-down, bottom-up and mixed sessions): no build aborts *)
 Theorem static_class_never_aborts_any_history fuel h :
   Forall (Forall no_abort) (fst (run_history RC OC P always fuel init_world h)).
